@@ -647,6 +647,8 @@ class C12(Check):
                 yield {'mode': 'history', 'lives': [clean(k), l2]}
             # every crash index of the writer (and of the reader) at several buffer sizes, kill aftermath and old-image aftermath
             for buf in crash_bufs:
+                if k == 'BIG' and buf == 1:
+                    continue                  # 43 000 one-byte writes x 43 000 crash points: covered at byte granularity by A and I1
                 nops = 12 + (n // max(buf, 1)) + 6
                 nops = min(nops, 12 + 400) if buf == 1 and tier_is_quick(trunc_step) else nops
                 for idx in range(1, nops + 1):
@@ -671,7 +673,7 @@ class C12(Check):
                     yield {'mode': 'history', 'lives': [clean(k), l2]}
 
     def extra_evidence(self, agg, tier):
-        return {'exhaustive_parts': ('thorough: every truncation offset (A, I1, BIG), every writer crash index at buffer sizes 1/64/8192, every single failing FS '
+        return {'exhaustive_parts': ('thorough: every truncation offset (A, I1, BIG), every writer crash index at buffer sizes 1/64/8192 (BIG: 64/8192), every single failing FS '
                                      'call x 7 errnos on write and read path, every single-bit flip of the A cache file' if tier == 'thorough' else
                                      'quick: strided slice of the same enumeration (every 97th truncation offset, every 211th bit, crash indices at buffer 64)'),
                 'exhaustive': False}
